@@ -94,8 +94,18 @@ class PArr:
     """a numpy array seen at one arbitrary index: element-wise code is verified pointwise (the same formula at every
     index); masks are booleans at that index.  `diag` says whether the index lies on the diagonal."""
 
-    def __init__(self, e, diag=None):
-        self.e, self.diag = e, diag
+    def __init__(self, e, diag=None, idx=None):
+        # idx = (I, J): the z3 constants that stand for the arbitrary index; arr[a, b] substitutes them
+        self.e, self.diag, self.idx = e, diag, idx
+
+    def like(self, e):
+        return PArr(e, self.diag, self.idx)
+
+    def at(self, *ix):
+        import z3
+        if self.idx is None or len(ix) != len(self.idx):
+            raise EngineError('element of a pointwise array without index constants')
+        return z3.substitute(self.e, *list(zip(self.idx, ix)))
 
 
 class IterV:
